@@ -146,6 +146,7 @@ pub fn host_fault_from_json(v: &Value) -> Option<HostFault> {
         "reset_after" => HostFault::ResetAfter,
         "stall" => HostFault::Stall(v["ms"].as_u64().unwrap_or(1000)),
         "cut" => HostFault::CutResponse(v["n"].as_u64().unwrap_or(10) as usize),
+        "cut_body" => HostFault::CutBody(v["n"].as_u64().unwrap_or(0) as usize),
         "key_doc" => HostFault::KeyDoc(v["variant"].as_str().unwrap_or("missing_issued").to_string()),
         _ => return None,
     })
@@ -410,7 +411,11 @@ pub async fn execute(seed: u64, plan: Value) -> Run {
             }
             "clear_faults" => {
                 // faults nobody ran into do not leak into the next phase
-                st.lock().unwrap().faults.remove("client");
+                if s["all"] == true {
+                    st.lock().unwrap().faults.clear();
+                } else {
+                    st.lock().unwrap().faults.remove("client");
+                }
                 vrt::net::clear_faults();
             }
             "drain_faults" => {
